@@ -108,12 +108,9 @@ func (a CommandBasedAuthorizer) evaluate() bool {
 				continue
 			}
 			// guard against regexes that are not anchored to the start and end of the string
-			if regexish[0] != regexStartByte {
-				regexish = regexStartStr + regexish
-			}
-			if regexish[len(regexish)-1] != regexEndByte {
-				regexish = regexish + regexEndStr
-			}
+			// the pattern must match the entire argument string: anchor the whole
+			// expression, not only its first and last alternative
+			regexish = "^(?:" + regexish + ")$"
 			if matched, err := regexp.MatchString(regexish, a.body.Args.CommandArgsNoLE()); err != nil {
 				a.Errorf(a.ctx, "bad regex detected; %v", err)
 				return false
